@@ -733,7 +733,7 @@ func (g *c8gen) free(zone byte, depth int, kind byte) *c8jv {
 		} else if g.big > 0 && r.IntN(30) == 0 {
 			g.big--
 			if r.IntN(2) == 0 {
-				n = 60 + r.IntN(14) // straddles the 64-name switch
+				n = 60 + r.IntN(40) // straddles the 64-name switch
 			} else {
 				n, long = 9+r.IntN(5), true // ~100-byte names: straddles the 1024-byte switch
 			}
@@ -921,7 +921,7 @@ func (g *c8gen) typed(sh *c8shape, depth int) *c8jv {
 		small := false
 		if g.big > 0 && depth <= 3 && r.IntN(25) == 0 {
 			g.big--
-			nu, small = 62+r.IntN(10), true // unknown names alone push the struct's namespace into map mode
+			nu, small = 62+r.IntN(30), true // unknown names alone push the struct's namespace into map mode
 		}
 		seen := map[string]bool{}
 		for i := 0; i < nu; i++ {
